@@ -1,2 +1,4 @@
 -- root of the library: every property module (kept in sync with bin/props.py)
 import UgoVerif.Props.C15
+import UgoVerif.Props.C04
+import UgoVerif.Props.C18
